@@ -354,6 +354,8 @@ ThAll       == {<<1, 1009>>, <<10, 101>>, <<26, 101>>, <<41, 101>>}
 PctQuick    == {<<34, 101>>, <<91, 101>>}
 PctOne      == {<<91, 101>>}
 PctLow      == {<<34, 101>>}
+PctThree    == {<<34, 101>>, <<67, 101>>, <<91, 101>>}
+ThOne       == {<<26, 101>>}
 MixOne      == {<<3, 2>>}
 PctAll      == {<<34, 101>>, <<51, 101>>, <<67, 101>>, <<91, 101>>}
 MixQuick    == {<<3, 2>>, <<1, 2>>}
